@@ -1,19 +1,20 @@
 #!/bin/bash
-# runs every check against every seeded change; prints which properties' checks report it
+# runs every check against every seeded change (in parallel); prints which properties' checks report it and through which rules
 cd /verif
-for sd in ${@:-seeded/*/}; do
-  sd=${sd%/}
-  D=$(mktemp -d /tmp/rivia-seedrun-XXXXXX)
-  rsync -a --exclude target --exclude .git /repo/ "$D/"
-  if ! (cd "$D" && patch -p1 -s < "/verif/$sd/patch.diff"); then echo "NOAPPLY $sd"; rm -rf "$D"; continue; fi
-  hit=""
-  for id in C01 C02 C03 C04 C05 C06 C07 C08 C09 C10 C11 C12 C13 C15 C17 C18 C19 C20; do
-    out=$(VERIF_EVIDENCE_DIR="$D/.evidence" VERIF_REPO="$D" ./check $id --repo "$D" 2>&1)
-    if echo "$out" | grep -q "^VIOLATION"; then
-      k=$(echo "$out" | grep -o "\[[A-Z][A-Z-]* " | sort | uniq -c | tr -s ' ' | tr '\n' ' ')
-      hit="$hit $id"; echo "      $id: $k"
-    fi
-  done
-  echo "$sd => detected by:${hit:- NONE}"
-  rm -rf "$D"
+ls -d ${@:-seeded/*/} | sed 's:/$::' | xargs -P 6 -L 1 bash -c '
+sd=$0
+D=$(mktemp -d /tmp/rivia-seedrun-XXXXXX)
+rsync -a --exclude target --exclude .git /repo/ "$D/"
+if ! (cd "$D" && patch -p1 -s < "/verif/$sd/patch.diff"); then echo "NOAPPLY $sd"; rm -rf "$D"; exit 0; fi
+hit=""; det=""
+for id in C01 C02 C03 C04 C05 C06 C07 C08 C09 C10 C11 C12 C13 C15 C17 C18 C19 C20; do
+  out=$(VERIF_EVIDENCE_DIR="$D/.evidence" VERIF_REPO="$D" ./check $id --repo "$D" 2>&1)
+  if echo "$out" | grep -q "^VIOLATION"; then
+    k=$(echo "$out" | grep -o "\[[A-Z][A-Z-]* " | sort | uniq -c | tr -s " " | tr "\n" " ")
+    hit="$hit $id"; det="$det      $id: $k
+"
+  fi
 done
+printf "%s%s => detected by:%s\n" "$det" "$sd" "${hit:- NONE}"
+rm -rf "$D"
+'
